@@ -68,7 +68,7 @@ def stratified_circuit(
     classifiers = _get_classifiers(circuit, categories)
 
     # Try the algorithm with each permutation of the classifiers.
-    smallest_depth = protocols.num_qubits(circuit) * len(circuit) + 1
+    smallest_depth: int | None = None
     shortest_stratified_circuit = circuits.Circuit()
     reversed_circuit = transformer_primitives.reverse_circuit(circuit)
     for ordered_classifiers in itertools.permutations(classifiers):
@@ -77,7 +77,7 @@ def stratified_circuit(
             classifiers=ordered_classifiers,
             context=context or transformer_api.TransformerContext(),
         )
-        if len(solution) < smallest_depth:
+        if smallest_depth is None or len(solution) < smallest_depth:
             shortest_stratified_circuit = solution
             smallest_depth = len(solution)
 
@@ -89,7 +89,7 @@ def stratified_circuit(
             classifiers=ordered_classifiers,
             context=context or transformer_api.TransformerContext(),
         )
-        if len(solution) < smallest_depth:
+        if smallest_depth is None or len(solution) < smallest_depth:
             shortest_stratified_circuit = transformer_primitives.reverse_circuit(solution)
             smallest_depth = len(solution)
 
